@@ -561,15 +561,18 @@ Definition valid_op (F : file) (o : op) : bool :=
   end.
 
 (* ------------------------------------------------------------------ hypotheses of the refinement theorem *)
-(* number of entries of a subtree (closing null entries included) *)
-Fixpoint node_count (n : node) : nat :=
-  match n with Node _ raw kids _ _ => S (fold_right (fun k acc => node_count k + acc)%nat 0%nat kids) + (if dr_hc raw then 1 else 0) end.
+(* fuel that draining the children generator of a node needs: one per child and two more, plus what the
+   deepest child needs (the generator of a child is drained inside one resumption of its parent's) *)
+Fixpoint nav_fuel (n : node) : nat :=
+  match n with
+  | Node _ _ kids _ _ => (S (S (length kids)) + fold_right (fun k acc => Nat.max (nav_fuel k) acc) 0 kids)%nat
+  end.
 
-(* the bound that the fuel of the machine's loops must exceed: more than the number of units, of dynamic
-   tags, and of twice the entries of the largest unit *)
+(* the bound that the fuel of the machine's loops must exceed: the number of units, of dynamic tags, and
+   the navigation fuel of the largest unit tree *)
 Definition fuel_bound (F : file) : nat :=
   (length (f_units F) + length (f_dyns F) +
-   2 * fold_right (fun ud acc => Nat.max (node_count (ud_tree ud)) acc) 0 (f_units F) + 4)%nat.
+   fold_right (fun ud acc => Nat.max (nav_fuel (ud_tree ud)) acc) 0 (f_units F) + 4)%nat.
 Definition fuel_ok (F : file) (fuel : nat) : bool := (fuel_bound F <? fuel)%nat.
 
 (* the finding lineprogram-header-file_entry-grows-after-get_entries concerns exactly the query
